@@ -1,4 +1,7 @@
 """C03 — assembly is the exact scatter-add."""
+import os
+from tools.py2lean import gen_c03
+
 LEAN_TARGETS = ["EasyFEAVerif.Props.C03"]
 PROPS_MODULES = ["EasyFEAVerif.Props.C03"]
 TRUSTED_EXTRA = [
@@ -11,4 +14,6 @@ ASSUMPTIONS = [
 
 
 def generate(repo, lean_dir):
-    return dict(model="hand-written: lean/EasyFEAVerif/Model/Assembly.lean", tie="correspondence")
+    d = gen_c03.write(repo, os.path.join(lean_dir, "EasyFEAVerif", "Gen", "C03"))
+    return dict(model="hand-written: lean/EasyFEAVerif/Model/Assembly.lean (statements of the dof numbering and of the reduction map pinned by Gen/C03/Forms.lean)",
+                tie="statement-level translation + correspondence", extracted=d["forms"])
